@@ -23,7 +23,7 @@ def plan(tier, seed):
 
 
 def thresholds(tier):
-  t = {"designs": 150, "signal_cycle_comparisons": 20000, "shared_symbols": 50, "textwave_comparisons": 10000, "change_records_parsed": 5000}
+  t = {"designs": 150, "signal_cycle_comparisons": 20000, "shared_symbols": 50, "textwave_comparisons": 10000, "change_records_parsed": 5000, "designs_with_inputs_echoing_tied_constants": 30}
   if tier == "thorough":
     t = {k: v * 15 for k, v in t.items()}
   return t
@@ -31,7 +31,8 @@ def thresholds(tier):
 
 def knobs_for(rng):
   return {"depth": rng.choice([0, 1, 1, 2]), "max_children": rng.choice([1, 2, 3]), "p_ff": 0.3, "p_connect": rng.choice([0.4, 0.7]),
-          "p_split": 0.3, "p_struct": 0.35, "p_list": 0.3, "max_sigs": rng.choice([3, 5]), "expr_depth": 2, "p_nested_field": rng.choice([0, 0.3]), "p_list_field": rng.choice([0, 0.3])}
+          "p_split": 0.3, "p_struct": 0.35, "p_list": 0.3, "max_sigs": rng.choice([3, 5]), "expr_depth": 2, "p_nested_field": rng.choice([0, 0.3]), "p_list_field": rng.choice([0, 0.3]),
+          "p_const": rng.choice([0, 0.15, 0.3]), **({"widths": rng.choice([[1, 2], [1, 2, 3, 4], [2], [8]])} if rng.random() < 0.5 else {})}
 
 
 def mangle(n):
@@ -75,6 +76,14 @@ def run_case(sh, case):
     seq = M.gen_inputs(rng, d, ncyc)
     resets = set(range(2)) | ({rng.randrange(5, ncyc)} if rng.random() < 0.5 else set())
     hold = rng.random() < 0.3
+    # hostile to change compression: live values that coincide with the constants tied to other nets (and with 0 / all ones)
+    consts = sorted({sv["const"] for c in d["classes"].values() for dst, sv in c["connects"] if "const" in sv})
+    if consts and rng.random() < 0.7:
+      for cyc in range(ncyc):
+        if cyc < 3 or rng.random() < 0.3:
+          cv = rng.choice(consts)
+          seq[cyc] = {p: (cv & G.mask(w) if rng.random() < 0.8 else v) for (p, w), v in zip(G.top_inputs(d), [seq[cyc][p] for p, w in G.top_inputs(d)])}
+      sh.count("designs_with_inputs_echoing_tied_constants")
     for cyc, inp in enumerate(seq):
       if hold and cyc > 3 and cyc % 3: inp = seq[cyc - 1]; seq[cyc] = inp     # inputs that return / do not change
       M.set_inputs(top, live, inp, widths, int(cyc in resets))
